@@ -416,6 +416,21 @@ func main() {
 			}
 		}()
 	}
+	stopProgress := make(chan struct{})
+	go func() {
+		t := time.NewTicker(60 * time.Second)
+		defer t.Stop()
+		for {
+			select {
+			case <-stopProgress:
+				return
+			case <-t.C:
+				a.mu.Lock()
+				fmt.Fprintf(os.Stderr, "C14: %d of %d units done, %d violation keys so far\n", len(a.done), len(units), len(a.viols))
+				a.mu.Unlock()
+			}
+		}
+	}()
 	skipped := 0
 	for _, b := range batches {
 		a.mu.Lock()
@@ -430,6 +445,7 @@ func main() {
 	}
 	close(next)
 	wg.Wait()
+	close(stopProgress)
 	if a.harnErr != "" {
 		vk.Fatalf("%s", a.harnErr)
 	}
